@@ -42,8 +42,9 @@ pub enum Node {
         /// for \ifcase: the cases; otherwise exactly one "true" branch
         branches: Vec<Vec<Node>>,
         else_: Option<Vec<Node>>,
-        /// use \let-aliases for the if / else / or / fi tokens
-        alias: (bool, bool, bool, bool),
+        /// how the if / else / or / fi tokens are written: 0 = the primitive's own name, 1 = a control
+        /// sequence \let equal to it, 2 = an active character \let equal to it
+        alias: (u8, u8, u8, u8),
     },
     /// rendered only inside skipped text
     JunkOpen,
@@ -61,7 +62,7 @@ pub struct CondCase {
     pub body: Vec<Node>,
 }
 
-const COND_PREAMBLE: &str = "\\let\\myiftrue=\\iftrue \\let\\myiffalse=\\iffalse \\let\\myifnum=\\ifnum \\let\\myifodd=\\ifodd \\let\\myifcase=\\ifcase \\let\\myelse=\\else \\let\\myor=\\or \\let\\myfi=\\fi ";
+const COND_PREAMBLE: &str = "\\catcode`\\@=13 \\catcode`\\?=13 \\catcode`\\&=13 \\catcode`\\_=13 \\catcode`\\;=13 \\catcode`\\|=13 \\catcode`\\!=13 \\catcode`\\~=13 \\let@=\\iftrue \\let?=\\iffalse \\let&=\\ifnum \\let_=\\ifodd \\let;=\\ifcase \\let|=\\else \\let!=\\or \\let~=\\fi \\let\\myiftrue=\\iftrue \\let\\myiffalse=\\iffalse \\let\\myifnum=\\ifnum \\let\\myifodd=\\ifodd \\let\\myifcase=\\ifcase \\let\\myelse=\\else \\let\\myor=\\or \\let\\myfi=\\fi ";
 
 struct Render {
     text: String,
@@ -70,6 +71,7 @@ struct Render {
     max_depth: usize,
     interesting_operand: bool,
     alias_in_skipped: bool,
+    active_alias_in_skipped: bool,
     junk_in_skipped: bool,
 }
 
@@ -156,23 +158,32 @@ impl Render {
                 }
                 Node::Cond { kind, branches, else_, alias } => {
                     self.max_depth = self.max_depth.max(depth + 1);
-                    let any_alias = alias.0 || alias.1 || alias.2 || alias.3;
+                    let any_alias = alias.0 != 0 || alias.1 != 0 || alias.2 != 0 || alias.3 != 0;
                     if !live && any_alias {
                         self.alias_in_skipped = true;
                     }
-                    let pre = if alias.0 { "\\myif" } else { "\\if" };
+                    if !live && (alias.0 == 2 || alias.1 == 2 || alias.2 == 2 || alias.3 == 2) {
+                        self.active_alias_in_skipped = true;
+                    }
+                    let spell = |name: &str, active: char, how: u8| -> String {
+                        match how {
+                            0 => format!("\\{} ", name),
+                            1 => format!("\\my{} ", name),
+                            _ => active.to_string(),
+                        }
+                    };
                     // which branch is selected (only meaningful when live)
                     let mut selected: Option<usize> = None; // index into branches, None => else
                     match kind {
                         CondKind::IfTrue => {
-                            self.text.push_str(&format!("{}true ", pre));
+                            self.text.push_str(&spell("iftrue", '@', alias.0));
                             selected = Some(0);
                         }
                         CondKind::IfFalse => {
-                            self.text.push_str(&format!("{}false ", pre));
+                            self.text.push_str(&spell("iffalse", '?', alias.0));
                         }
                         CondKind::IfNum(a, rel, b) => {
-                            self.text.push_str(&format!("{}num ", pre));
+                            self.text.push_str(&spell("ifnum", '&', alias.0));
                             let av = self.operand(a, regs);
                             self.text.push(match rel {
                                 Rel::Lt => '<',
@@ -194,7 +205,7 @@ impl Render {
                             }
                         }
                         CondKind::IfOdd(a) => {
-                            self.text.push_str(&format!("{}odd ", pre));
+                            self.text.push_str(&spell("ifodd", '_', alias.0));
                             let av = self.operand(a, regs);
                             self.text.push_str("\\relax ");
                             let odd = if dev.ifodd_false_for_negative { av % 2 == 1 } else { av.rem_euclid(2) == 1 };
@@ -206,7 +217,7 @@ impl Render {
                             }
                         }
                         CondKind::IfCase(a) => {
-                            self.text.push_str(&format!("{}case ", pre));
+                            self.text.push_str(&spell("ifcase", ';', alias.0));
                             let av = self.operand(a, regs);
                             self.text.push_str("\\relax ");
                             if av >= 0 && (av as usize) < branches.len() {
@@ -221,7 +232,7 @@ impl Render {
                     let nb = if is_case { branches.len().max(1) } else { 1 };
                     for i in 0..nb {
                         if i > 0 {
-                            self.text.push_str(if alias.2 { "\\myor " } else { "\\or " });
+                            self.text.push_str(&spell("or", '!', alias.2));
                         }
                         let empty = vec![];
                         let b = branches.get(i).unwrap_or(&empty);
@@ -230,12 +241,12 @@ impl Render {
                         self.nodes(b, regs, b_live, if live { if b_live { 0 } else { 0 } } else { sd }, depth + 1, dev);
                     }
                     if let Some(e) = else_ {
-                        self.text.push_str(if alias.1 { "\\myelse " } else { "\\else " });
+                        self.text.push_str(&spell("else", '|', alias.1));
                         let e_live = live && selected.is_none();
                         let sd = if live { 0 } else { skip_depth + 1 };
                         self.nodes(e, regs, e_live, sd, depth + 1, dev);
                     }
-                    self.text.push_str(if alias.3 { "\\myfi " } else { "\\fi " });
+                    self.text.push_str(&spell("fi", '~', alias.3));
                 }
             }
         }
@@ -247,17 +258,18 @@ pub struct BuiltCond {
     pub expected: String,
     pub max_depth: usize,
     pub nontrivial: bool,
+    pub active_alias_in_skipped: bool,
 }
 
 pub fn build_cond(c: &CondCase, dev: Deviations) -> BuiltCond {
-    let mut r = Render { text: String::from(COND_PREAMBLE), expected: String::new(), next_tag: 0, max_depth: 0, interesting_operand: false, alias_in_skipped: false, junk_in_skipped: false };
+    let mut r = Render { text: String::from(COND_PREAMBLE), expected: String::new(), next_tag: 0, max_depth: 0, interesting_operand: false, alias_in_skipped: false, active_alias_in_skipped: false, junk_in_skipped: false };
     for i in 0..3 {
         r.text.push_str(&format!("\\count{}={}\\relax ", i + 1, c.regs[i]));
     }
     r.nodes(&c.body, &c.regs, true, 0, 0, dev);
     r.text.push('%');
     let nontrivial = r.max_depth >= 3 || r.interesting_operand || r.alias_in_skipped;
-    BuiltCond { text: r.text, expected: r.expected, max_depth: r.max_depth, nontrivial }
+    BuiltCond { text: r.text, expected: r.expected, max_depth: r.max_depth, nontrivial, active_alias_in_skipped: r.active_alias_in_skipped }
 }
 
 fn int_strategy() -> impl Strategy<Value = i32> {
@@ -282,6 +294,10 @@ fn kind_strategy() -> impl Strategy<Value = CondKind> {
     ]
 }
 
+fn alias_strategy() -> impl Strategy<Value = u8> {
+    prop_oneof![7 => Just(0u8), 2 => Just(1u8), 2 => Just(2u8)]
+}
+
 fn node_strategy() -> impl Strategy<Value = Node> {
     let leaf = prop_oneof![
         6 => Just(Node::Tag),
@@ -298,7 +314,7 @@ fn node_strategy() -> impl Strategy<Value = Node> {
                 kind_strategy(),
                 proptest::collection::vec(proptest::collection::vec(inner.clone(), 0..3), 1..4),
                 proptest::option::weighted(0.7, proptest::collection::vec(inner, 0..3)),
-                (proptest::bool::weighted(0.2), proptest::bool::weighted(0.2), proptest::bool::weighted(0.2), proptest::bool::weighted(0.2)),
+                (alias_strategy(), alias_strategy(), alias_strategy(), alias_strategy()),
             )
                 .prop_map(|(kind, branches, else_, alias)| Node::Cond { kind, branches, else_, alias }),
         ]
@@ -315,6 +331,7 @@ fn cond_oracle(ctx: &Ctx, c: &CondCase, case: &mut Case) -> Verdict {
     case.class_if(b.max_depth >= 3, "depth>=3");
     case.class_if(b.max_depth >= 5, "depth>=5");
     case.class_if(b.nontrivial, "nontrivial");
+    case.class_if(b.active_alias_in_skipped, "active-character alias of a conditional primitive in skipped text");
     let r = texvm::run_program(&VmOptions::default(), &b.text);
     let got = texvm::plain(&r.out);
     if r.error.is_none() && got == b.expected {
@@ -638,7 +655,7 @@ fn noexpand_oracle(ts: &Vec<NTok>, case: &mut Case) -> Verdict {
 }
 
 pub fn run(ctx: &Ctx) {
-    ctx.rule("conditionals: well-nested trees (depth 0..6) of \\iftrue \\iffalse \\ifnum \\ifodd \\ifcase with \\or/\\else/\\fi, i32 operands (constants or \\count reads), unique 3-letter tags in every branch, junk (unbalanced braces, undefined control sequences, \\or at nesting depth>=1, extra \\else inside a nested conditional) and \\let-aliases in skipped text; output compared with a tree evaluator. non-trivial = depth>=3 or a negative/out-of-range operand evaluated or an aliased primitive in skipped text. expansion: random token streams run under the optimised and the simple \\expandafter (differential), chains of \\expandafter^k against a one-step expansion model observed with \\vpcapture, and \\noexpand sequences; non-trivial = chain length>=2; distinct by program text");
+    ctx.rule("conditionals: well-nested trees (depth 0..6) of \\iftrue \\iffalse \\ifnum \\ifodd \\ifcase with \\or/\\else/\\fi, i32 operands (constants or \\count reads), unique 3-letter tags in every branch, junk (unbalanced braces, undefined control sequences, \\or at nesting depth>=1, extra \\else inside a nested conditional) and \\let-aliases (control sequences and active characters) of every conditional primitive in live and skipped text; output compared with a tree evaluator. non-trivial = depth>=3 or a negative/out-of-range operand evaluated or an aliased primitive in skipped text. expansion: random token streams run under the optimised and the simple \\expandafter (differential), chains of \\expandafter^k against a one-step expansion model observed with \\vpcapture, and \\noexpand sequences; non-trivial = chain length>=2; distinct by program text");
     ctx.assume("\\or at nesting depth 0 of a skipped non-\\ifcase branch is an error in TeX (Extra \\or) and is not generated");
     ctx.assume("\\expandafter applied to \\noexpand is only checked differentially (its TeX meaning involves the dont_expand marker and is outside the stated property)");
     let n = ctx.tier.pick(250_000u64, 3_000_000u64);
